@@ -1188,6 +1188,26 @@ pub fn direct_c05(ctx: &mut Ctx) {
             let ts: Vec<Tensor> = (0..n).map(|_| target_for(&mut g, &Sh::Flat(3), "ce")).collect();
             jobs.push((spec, xs, ts));
         }
+        // soft-max outputs whose maximum is TIED between several classes (output rows shared in period 4; a bias-free ReLU layer
+        // that blank and all-negative samples switch off entirely, so the output is exactly uniform), narrow and wide (320
+        // classes): which of the tied classes counts is fixed by the data, not by how the work is split
+        for (hidden, classes) in [(7usize, 5usize), (16, 320), (8, 257)] {
+            let w1 = g.tensor_of(&Shape::Double(hidden, 6), false);
+            let l1 = InnerSpec::Dense { out: hidden, act: "relu".into(), bias: false, dropout: None, w: w1, b: None };
+            let rows: Vec<Vec<f32>> = (0..4).map(|_| (0..hidden).map(|_| g.rng().uniform(-0.8, 0.8)).collect()).collect();
+            let w2 = Tensor::double((0..classes).map(|c| rows[c % 4].clone()).collect());
+            let l2 = InnerSpec::Dense { out: classes, act: "softmax".into(), bias: false, dropout: None, w: w2, b: None };
+            let spec = NetSpec { input: Shape::Single(6), builds: vec![Build::Layer(l1), Build::Layer(l2)], skipacc: "add".into(), loopacc: "mean".into(),
+                opt: Some(crate::ops::scalar::OptSpec::Sgd(1e-30, None)), obj: "ce".into(), clamp: None };
+            let n = 40;
+            let xs: Vec<Tensor> = (0..n).map(|i| match i % 4 {
+                0 => Tensor::single(vec![0.0; 6]),
+                1 => Tensor::single((0..6).map(|_| -g.rng().uniform(5.0, 9.0)).collect()),
+                _ => input_for(&mut g, &spec.input),
+            }).collect();
+            let ts: Vec<Tensor> = (0..n).map(|i| { let mut t = vec![0.0f32; classes]; t[(i * 7) % classes] = 1.0; if i % 3 == 0 { t[(i * 7 + 4) % classes] = 1.0; } Tensor::single(t) }).collect();
+            jobs.push((spec, xs, ts));
+        }
         // two feedback blocks of the same sizes and different wiring (input skips / output skips), trained one after the
         // other in ONE pool: nothing a worker thread keeps from the first may show in the second
         use crate::gen::arch::dense_spec;
@@ -1280,7 +1300,15 @@ pub fn direct_c05(ctx: &mut Ctx) {
             spec.obj = "mse".into();
             let n = [583usize, 321, 1031, 449][i % 4];
             let xs: Vec<Tensor> = (0..n).map(|_| input_for(&mut g, &spec.input)).collect();
-            let ts: Vec<Tensor> = (0..n).map(|_| target_for(&mut g, &out, &spec.obj)).collect();
+            let mut ts: Vec<Tensor> = (0..n).map(|_| target_for(&mut g, &out, &spec.obj)).collect();
+            // every fourth set holds a few samples whose loss is not finite (a target of 3e19: the squared error overflows; a NaN
+            // target): the other samples are still evaluated, and the result is the same for every schedule
+            if i % 4 == 1 {
+                for (k, v) in [(3usize, 3e19f32), (77, f32::NAN), (200, -3e19), (n - 1, f32::INFINITY)] {
+                    let len = flat_any(&ts[k]).len();
+                    ts[k] = Tensor::single(vec![v; len]);
+                }
+            }
             many_jobs.push((spec, xs, ts));
         }
     }
